@@ -145,3 +145,63 @@ Theorem C08_prior_at_is_table_index : forall raw n m q,
   ComposeMcts.prior_at raw n m = Some q <->
   exists i, nth_error (table n) i = Some m /\ nth_error raw i = Some q.
 Proof. exact ComposeMcts.prior_at_spec. Qed.
+
+(* ---- the same about MCTS.update and the pure part of MCTS.populate REGENERATED FROM THE SOURCE (gen/MctsGen.v, harness/mcts2coq.py against model/MctsSem.v + PySem.v; proofs/MctsGenEq.v); descend (sampling) and analyze_tree (the loop) stay trace-tied ---- *)
+From Coq Require Import ZArith QArith List Bool.
+From Coq Require Import Floats.SpecFloat.
+From TV Require Import model.Tak model.Road model.PySem model.Mcts model.MctsSem model.Solver model.LambdaF64.
+From TV Require Import proofs.MctsProofs proofs.MctsGenEq.
+From TV Require gen.MctsGen.
+(* (a) update(path): on the path as populate left it (leaf's v_zero new, values and visit counts old) the generated
+   backup loop yields exactly the statistics of the same path in simulate's result *)
+Theorem C08_source_update_eq :
+  forall cutoff mix cs n noise evs n' v evs',
+  valid cs n -> simulate cutoff mix cs n noise evs = (n', v, evs') ->
+  MctsGen.update (pre_update cs n n') = Ok (map stat_of (path_nodes cs n')).
+Proof. exact gen_update_eq. Qed.
+(* C08 transported: the searched node gets one visit and exactly the credited value; the invariant holds *)
+Theorem C08_source_update_root :
+  forall cutoff mix cs n noise evs n' v evs',
+  Good cutoff n -> valid cs n -> simulate cutoff mix cs n noise evs = (n', v, evs') ->
+  exists t, MctsGen.update (pre_update cs n n') = Ok (stat_of n' :: t) /\
+            ps_simulations (stat_of n') = Z.of_nat (n_sims n) + 1 /\
+            (ps_value (stat_of n') == n_value n + v)%Q /\ Good cutoff n'.
+Proof. exact gen_update_root. Qed.
+(* (c) populate(node, is_root) on a terminal position: v_zero = +1 / -1 / 0 for the side to move by winner(),
+   nothing else changes, the network is not asked *)
+Theorem C08_source_populate_terminal :
+  forall evaluate dirichlet cutoff mix alpha p m v0 value sims raw probs o is_root,
+  terminal p = Some o ->
+  MctsGen.populate evaluate dirichlet (the_cfg cutoff mix alpha) (py_of (Node p m v0 value sims raw probs None)) is_root =
+  Ok (py_of (Node p m o value sims raw probs None)).
+Proof. exact gen_populate_terminal. Qed.
+(* ... otherwise exactly the expansion step of simulate: the evaluator's answer cut to the size's id table, the noise
+   mixed in at the searched root when root_noise_alpha is set, children = ids in order with prior >= cutoff that
+   Position.move accepts (child position = move parent m), their priors divided by their sum *)
+Theorem C08_source_populate_expand :
+  forall evaluate dirichlet cutoff mix alpha p m v0 value sims raw0 probs0 raw v is_root nz,
+  terminal p = None -> evaluate p = Ok (raw, v) -> (0 < cutoff)%Q ->
+  (is_root && is_some alpha = true ->
+   dirichlet (zlen (firstn (length (table (size p))) raw)) alpha = Ok nz /\
+   length nz = length (firstn (length (table (size p))) raw)) ->
+  let noise := if is_root && is_some alpha then Some nz else None in
+  let pri := priors mix p noise raw in
+  let acc := accepted cutoff p pri in
+  MctsGen.populate evaluate dirichlet (the_cfg cutoff mix alpha) (py_of (Node p m v0 value sims raw0 probs0 None)) is_root =
+  Ok (py_of (Node p m v value sims pri (renorm (map c_prior acc)) (Some (map child_of acc)))).
+Proof. exact gen_populate_expand. Qed.
+(* C08 transported: every child the generated populate stores is a table move the rules accept, each once, holding
+   the parent's position after that move *)
+Theorem C08_source_populate_children_legal :
+  forall evaluate dirichlet cutoff mix alpha p m v0 value sims raw0 probs0 raw v is_root nz,
+  terminal p = None -> evaluate p = Ok (raw, v) -> (0 < cutoff)%Q ->
+  (is_root && is_some alpha = true ->
+   dirichlet (zlen (firstn (length (table (size p))) raw)) alpha = Ok nz /\
+   length nz = length (firstn (length (table (size p))) raw)) ->
+  exists r ks, MctsGen.populate evaluate dirichlet (the_cfg cutoff mix alpha)
+                                (py_of (Node p m v0 value sims raw0 probs0 None)) is_root = Ok r /\
+               pn_children r = Some ks /\ pn_position r = p /\ pn_v_zero r = v /\
+               NoDup (map pn_move ks) /\
+               forall c, In c ks -> exists mv, pn_move c = Some mv /\ In mv (table (size p)) /\
+                                               Tak.move p mv = Some (pn_position c).
+Proof. exact gen_populate_children_legal. Qed.
